@@ -86,6 +86,35 @@ def op_cwrite(fa, schema, records, codec):
     return b.getvalue()
 
 
+def op_cwrite_meta(fa, schema, records, codec, metadata):
+    """container write with a caller-owned metadata dict (one dict object serves a whole history)"""
+    b = io.BytesIO()
+    fa.writer(b, schema, records, codec=codec, sync_marker=b"\x12" * 16, metadata=metadata)
+    return b.getvalue()
+
+
+def op_tee_block(fa, data, codec_a, codec_b, look_first):
+    """every block of a file copied into two new files; the Block objects are inputs and stay usable"""
+    from fastavro.write import Writer
+
+    src = fa.block_reader(io.BytesIO(data))
+    schema = src.writer_schema
+    outs = [io.BytesIO(), io.BytesIO()]
+    ws = [Writer(outs[0], schema, codec=codec_a, sync_marker=b"\x13" * 16), Writer(outs[1], schema, codec=codec_b, sync_marker=b"\x14" * 16)]
+    seen = []
+    for block in src:
+        # a Block is iterated at most once here (its iterator is one-shot by design)
+        if look_first:
+            seen.append(list(block))
+        for w in ws:
+            w.write_block(block)
+        if not look_first:
+            seen.append(list(block))
+    for w in ws:
+        w.flush()
+    return [list(fa.reader(io.BytesIO(o.getvalue()))) for o in outs], seen
+
+
 def op_cread(fa, data, reader_schema):
     r = fa.reader(io.BytesIO(data), reader_schema=reader_schema) if reader_schema is not None else fa.reader(io.BytesIO(data))
     return list(r), strip(r.writer_schema), r.codec
@@ -169,7 +198,7 @@ def op_load(fa, path):
     return strip(load_schema(path))
 
 
-OPS = {f.__name__[3:]: f for f in (op_parse, op_swrite, op_sread, op_cwrite, op_cread, op_validate, op_validate_many,
+OPS = {f.__name__[3:]: f for f in (op_parse, op_swrite, op_sread, op_cwrite, op_cwrite_meta, op_tee_block, op_cread, op_validate, op_validate_many,
                                    op_pcf, op_jwrite, op_jread, op_generate, op_gen_roundtrip, op_expand, op_load)}
 
 
@@ -426,7 +455,8 @@ def _run_history(sh, fa, zy, rng, scratch, hidx, schemas, repo_dir, repo_root, r
                 bad = m[0]
         kind = rng.choice(["parse", "parse_shared", "swrite", "sread", "cwrite", "cread", "validate", "validate_many", "pcf",
                            "jwrite", "jread", "generate", "expand", "swrite_bad", "sread_trunc", "parse_unknown_ref", "cwrite_bad",
-                           "gen_roundtrip", "gen_roundtrip", "dangling_ref", "dangling_ref", "load", "load_other"])
+                           "gen_roundtrip", "gen_roundtrip", "dangling_ref", "dangling_ref", "load", "load_other",
+                           "cwrite_meta", "cwrite_meta", "tee_block"])
         name, args, data_args = None, None, []
         if kind == "parse":
             name, args = "parse", (sarg, None)
@@ -448,6 +478,14 @@ def _run_history(sh, fa, zy, rng, scratch, hidx, schemas, repo_dir, repo_root, r
                 name, args = "sread", (raw[: rng.randrange(len(raw))], sarg, None)
         elif kind == "cwrite":
             name, args = "cwrite", (sarg, [d, d], rng.choice(["null", "deflate"]))
+        elif kind == "cwrite_meta":
+            # the caller's metadata dict is an input like any other, and is reused by later calls
+            meta = objs.setdefault("meta", {"origin": "history %d" % hidx, "k": "v"})
+            name, args = "cwrite_meta", (sarg, [d], rng.choice(["null", "deflate", "bzip2"]), meta)
+        elif kind == "tee_block":
+            st, raw = guard(op_cwrite, fa, copy.deepcopy(js), [d, d, d], rng.choice(["null", "deflate"]))
+            if st == "ok":
+                name, args = "tee_block", (raw, rng.choice(["null", "deflate"]), rng.choice(["null", "xz"]), rng.random() < 0.5)
         elif kind == "cwrite_bad" and bad is not None:
             name, args = "cwrite", (sarg, [d, bad], "null")
         elif kind == "cread":
@@ -537,11 +575,20 @@ def _run_history(sh, fa, zy, rng, scratch, hidx, schemas, repo_dir, repo_root, r
                          % (step, name, kind, [t[0] for t in trace[:-1]][-6:], printable(here, 160), printable(fresh, 160))
                          + "; first difference at " + first_diff(strip(here), strip(fresh)), info)
             return
+        if name == "tee_block":
+            # the Block objects handed to write_block are inputs: using one twice (two writers, or
+            # looking at its records before / after) gives the same records every time
+            ok = here[0] == "ok" and RC.same(here[1][0][0], here[1][0][1]) and len(here[1][0][0]) == 3 \
+                and RC.same([r for blk in here[1][1] for r in blk], here[1][0][0])
+            sh.count("block_reuse_checked")
+            if not ok:
+                sh.violation("argument-modified", "a Block used twice (two write_block calls, its records looked at before or after) did not give the same records twice: %s" % printable(here, 300), info)
+                return
         if failed_before:
             sh.count("failed_call_then_dependent_call")
         if here[0] == "exc":
             failed_before = True
-        # ---- arguments intact (the named-schema dictionary of parse may grow; metadata is not passed)
+        # ---- arguments intact (only the named-schema dictionary of parse may grow)
         for i, (b, a) in enumerate(zip(before, after)):
             if name == "parse" and i == 1:
                 continue
